@@ -400,6 +400,8 @@ func (c *Checker) CheckSource(sourceName string, source string) (compiler.Compil
 	c.Filename = sourceName
 	c.methodBodyChecks = nil
 	c.macroChecks = nil
+	// the methods called in constant declarations of the previous inputs have already been checked
+	c.methodCache = concurrent.NewSlice[*types.Method]()
 	c.signatureChecks = ds.NewOrderedMap[string, *[]signatureCheckEntry]()
 	c.setDefinedMacros(false)
 	compiler := c.CheckProgram(ast)
